@@ -31,7 +31,19 @@ SEVEN_ERAS_A_YEAR = (
     "\t\t\t3:00\t-\tAAA\t2010 Feb 1\n\t\t\t4:00\t-\tBBB\t2010 Apr 1\n\t\t\t5:00\t-\tCCC\t2010 Jun 1\n"
     "\t\t\t6:00\t-\tDDD\t2010 Aug 1\n\t\t\t7:00\t-\tEEE\t2010 Oct 1\n\t\t\t8:00\t-\tFFF\t2010 Dec 1\n\t\t\t9:00\t-\tGGG\n")
 
+def _k_rules(name, k, start=0):
+    mons = ["Feb", "Apr", "Jun", "Aug", "Oct", "Dec"]
+    return "".join("Rule\t%s\t1990\tmax\t-\t%s\tSun>=8\t2:00\t%s\t%s\n" % (name, mons[(start + i) % 6], "1:00" if i % 2 == 0 else "0", "D" if i % 2 == 0 else "S")
+                   for i in range(k))
+
+
+# two policies with four transitions a year each and an era change between them in mid-2020: the estimated pool is one
+# slot more than the extended processor has
+POOL_NINE = (_k_rules("PA", 4) + _k_rules("PB", 4, 1) +
+             "Zone\tGen/Zone0\t3:07\t-\tLMT\t1980\n\t\t\t3:00\tPA\tA%sT\t2020 Jul 1\n\t\t\t4:00\tPB\tB%sT\n")
+
 KNOWN_PROBES = [
+    ("capacity:pool-of-nine:extended", "extended", POOL_NINE),
     # seven eras inside one year: more ZoneEras than ExtendedZoneProcessor::kMaxMatches; the compiler must refuse the zone
     ("capacity:seven-eras-a-year:extended", "extended", SEVEN_ERAS_A_YEAR),
     # six rule transitions a year: more than either processor can hold. Extended: the compiler must refuse the zone (or
@@ -211,6 +223,10 @@ def probe_path_a(ctx, key, scope, text, work, sy, uy):
         if res["harness"]:
             continue
         ctx.evaluations += res["evaluations"]
+        if scope == "extended" and res.get("highwater") is not None and not (res["highwater"] < res["bufsize"] <= 8):
+            ctx.violation(key, {"source": text, "scope": scope, "start_year": sy, "until_year": uy, "highwater": res["highwater"], "bufsize": res["bufsize"]},
+                          "source through the generated C++ tables (extended), zone %s: recorded transitionBufSize %d, pool high-water %d "
+                          "(must be high-water < recorded size <= 8 = ExtendedZoneProcessor::kMaxTransitions)" % (z, res["bufsize"], res["highwater"]))
         if res["diffs"]:
             ctx.violation(key, {"source": text, "scope": scope, "start_year": sy, "until_year": uy, "diff": res["diffs"][0]},
                           "source through the generated C++ tables (%s), zone %s: %s" % (scope, z, json.dumps(res["diffs"][0], default=str)[:400]))
